@@ -165,6 +165,14 @@ func c07Neighbour(r *gen.Rand, twinA bool, avoid uint16) ref.Attr {
 	} else {
 		t = r.PickU16([]uint16{0x8022, 0xFFFF, 0x8029, 0x0300})
 	}
+	if r.Chance(1, 3) {
+		// any named attribute type may stand next to the one being read (RFC 8489's MESSAGE-INTEGRITY-SHA256 = 0x001C,
+		// the RFC 3489 legacy types, TURN and ICE attributes ...)
+		t = r.PickU16(gen.KnownAttrTypes)
+		if t == 0x0008 || t == 0x8028 || compat(t) == compat(avoid) {
+			t = 0x001C
+		}
+	}
 	if t == avoid {
 		t = 0x0002
 	}
@@ -517,18 +525,65 @@ func c07Persistent() []struct {
 
 			return func(m *stun.Message) (string, error) { err := a.GetFrom(m); return ipOut(a.IP, a.Port), err }
 		}},
+		{"AlternateServer.GetFrom", 0x8023, func() func(m *stun.Message) (string, error) {
+			a := new(stun.AlternateServer)
+
+			return func(m *stun.Message) (string, error) { err := a.GetFrom(m); return ipOut(a.IP, a.Port), err }
+		}},
+		{"ResponseOrigin.GetFrom", 0x802b, func() func(m *stun.Message) (string, error) {
+			a := new(stun.ResponseOrigin)
+
+			return func(m *stun.Message) (string, error) { err := a.GetFrom(m); return ipOut(a.IP, a.Port), err }
+		}},
+		{"OtherAddress.GetFrom", 0x802c, func() func(m *stun.Message) (string, error) {
+			a := new(stun.OtherAddress)
+
+			return func(m *stun.Message) (string, error) { err := a.GetFrom(m); return ipOut(a.IP, a.Port), err }
+		}},
+		{"Realm.GetFrom", 0x0014, func() func(m *stun.Message) (string, error) {
+			a := new(stun.Realm)
+
+			return func(m *stun.Message) (string, error) { err := a.GetFrom(m); return fmt.Sprintf("%x", []byte(*a)), err }
+		}},
+		{"MessageIntegrity.Check(one key buffer, rewritten in place)", 0x0008, func() func(m *stun.Message) (string, error) {
+			buf := make([]byte, 16) // the credential of whoever sent the packet is derived into this one buffer
+
+			return func(m *stun.Message) (string, error) {
+				copy(buf, c07KeyFor(m.TransactionID))
+
+				return "", stun.MessageIntegrity(buf).Check(m)
+			}
+		}},
 	}
 }
 
 // c07Reuse: one Message refilled with packet after packet, one receiver carried along. After every call the message
 // must be unchanged and the outcome must equal that of a fresh receiver on a fresh decode of the same packet.
+func c07KeyFor(tid [12]byte) []byte {
+	k := make([]byte, 16)
+	for i := range k {
+		k[i] = tid[i%12] ^ byte(17*i)
+	}
+
+	return k
+}
+
 func c07Reuse(c *core.Ctx, r *gen.Rand) {
 	getters := c07Persistent()
 	g := getters[r.Intn(len(getters))]
 	call := g.mk()
 	m := new(stun.Message)
 	var trace []string
+	// every message the receiver has read from so far, with what it looked like right after its own read
+	var earlier []*stun.Message
+	var earlierViews []msgView
 	for step := 0; step < 5; step++ {
+		if step > 0 && r.Bool() {
+			// the next packet goes into another Message; the one just read stays around (and must stay as it is)
+			earlier = append(earlier, m)
+			earlierViews = append(earlierViews, viewOf(m))
+			m = new(stun.Message)
+		}
 		var before []ref.Attr
 		for k := r.Intn(3); k > 0; k-- {
 			before = append(before, c07Neighbour(r, r.Bool(), g.typ))
@@ -540,7 +595,27 @@ func c07Reuse(c *core.Ctx, r *gen.Rand) {
 				val[0], val[1] = 0, byte(1+r.Intn(2))
 			}
 		}
-		wire, _ := c07Wire(r, 0x0101, r.TID(), before, ref.Attr{Type: g.typ, Value: val}, []ref.Attr{c07Neighbour(r, false, 0)}, 2, false)
+		if g.typ == 0x8023 || g.typ == 0x802b || g.typ == 0x802c {
+			if n >= 2 {
+				val[0], val[1] = 0, byte(1+r.Intn(2))
+			}
+			if r.Bool() {
+				val = append([]byte{0, byte(1 + step%2), 0x12, 0x34}, r.Bytes(4+12*(step%2))...) // well-formed, families alternating
+				n = len(val)
+			}
+		}
+		tid := r.TID()
+		if g.typ == 0x0008 && r.Bool() {
+			val, n = make([]byte, 20), 20
+		}
+		wire, off := c07Wire(r, 0x0101, tid, before, ref.Attr{Type: g.typ, Value: val}, []ref.Attr{c07Neighbour(r, false, 0)}, 2, g.typ == 0x0008)
+		if g.typ == 0x0008 && n == 20 && r.Chance(2, 3) {
+			if rm, _ := ref.Parse(wire); rm != nil {
+				if mac, tlv, ok := ref.IntegrityExpected(wire, rm, c07KeyFor(tid)); ok && tlv.Off == off {
+					copy(wire[off:], mac) // the sender's MAC under its own credential: the check passes
+				}
+			}
+		}
 		trace = append(trace, fmt.Sprintf("Write(%dB, value %dB at attr %d)", len(wire), n, len(before)))
 		if _, err := m.Write(wire); err != nil {
 			fatalHarness("C07 reuse: " + err.Error())
@@ -561,6 +636,15 @@ func c07Reuse(c *core.Ctx, r *gen.Rand) {
 			c.Violate("side-effect", "side-effect-on-reuse:"+g.name, detail)
 
 			return
+		}
+		for k, em := range earlier {
+			if d := earlierViews[k].diff(viewOf(em)); d != "" {
+				detail["diff"] = d
+				detail["problem"] = fmt.Sprintf("message %d, read earlier through the same receiver, changed when a later message was read", k)
+				c.Violate("side-effect", "side-effect-on-earlier-message:"+g.name, detail)
+
+				return
+			}
 		}
 		fresh := new(stun.Message)
 		_ = stun.Decode(wire, fresh)
